@@ -99,6 +99,18 @@ class Angle(EdgeData):
     def translate(self, displacement):
         """Axis is not to be translated"""
 
+    def rotate(self, angle, axis, origin=None):
+        """Axis is a direction: it is rotated but not displaced, whatever the origin"""
+        self.axis.rotate(angle, axis, [0, 0, 0])
+        return self
+
+    def mirror(self, normal, origin=None):
+        """Axis is a direction: it is reflected but not displaced, whatever the origin;
+        a reflection also reverses the sense of rotation"""
+        self.axis.mirror(normal, [0, 0, 0])
+        self.axis.scale(-1, [0, 0, 0])
+        return self
+
     def scale(self, ratio, origin=None):
         """Axis is not to be scaled"""
 
